@@ -112,6 +112,9 @@ class DuckStub:
         self.in_tx = False
         self.closed = False
         self.calls = []  # sql texts executed on THIS connection
+        self.sources = []
+        self.last_target = None
+        self.last_described = None
         self._names = ["?"]
         self._rows = []
         self._table = None
@@ -217,8 +220,15 @@ class DuckStub:
 
     def _lookup(self, t: exp.Table):
         c, s, n = self._resolve(t)
-        if s == "INFORMATION_SCHEMA" or n.startswith("DUCKDB_"):
+        if n.startswith("DUCKDB_"):
             return c, s, n, Tbl([], "VIEW")
+        if s == "INFORMATION_SCHEMA":
+            objs = self.engine.dbs[c]["schemas"].get(s, {})
+            if n in objs:
+                return c, s, n, objs[n]
+            if n in ("TABLES", "COLUMNS", "SCHEMATA", "VIEWS", "DATABASES", "KEY_COLUMN_USAGE", "TABLE_CONSTRAINTS") or n.startswith("_FS_"):
+                return c, s, n, Tbl([], "VIEW")
+            raise duckdb.CatalogException(f"Catalog Error: Table with name {n} does not exist!\nDid you mean ...")
         objs = self.engine.dbs[c]["schemas"].get(s, {})
         if n not in objs:
             raise duckdb.CatalogException(f"Catalog Error: Table with name {n} does not exist!\nDid you mean ...")
@@ -409,6 +419,8 @@ class DuckStub:
         exists_ok = bool(st.args.get("exists"))
         tgt = st.this
         if kind == "DATABASE":
+            # DuckDB has no DROP DATABASE (fakesnow does not support it either: "TODO: support drop database")
+            raise duckdb.ParserException('Parser Error: syntax error at or near "DATABASE"')
             name = U(tgt.name)
             if name not in eng.dbs:
                 if exists_ok:
@@ -438,6 +450,7 @@ class DuckStub:
                     return
                 raise
             del eng.dbs[c]["schemas"][s][n]
+            self.last_target = (c, s, n)
             eng.writes.append((self.id, "DROP " + kind, f"{c}.{s}.{n}", self.in_tx))
         else:
             raise HarnessError(f"DROP {kind}")
@@ -514,6 +527,7 @@ class DuckStub:
         inner = st.this
         if isinstance(inner, exp.Table):
             c, s, n, obj = self._lookup(inner)
+            self.last_described = (c, s, n)
             rows = [(cn, ty, "YES", None, None, None) for cn, ty in obj.cols]
         elif isinstance(inner, (exp.Select, exp.Union, exp.Subquery, exp.Values)):
             if isinstance(inner, exp.Select) and not inner.args.get("from"):
@@ -594,6 +608,7 @@ def validate_engine() -> list:
         "DROP TABLE IF EXISTS T1",
         "DROP SCHEMA DB1.S2 CASCADE",  # CatalogException
         "DROP SCHEMA IF EXISTS DB1.S2 CASCADE",
+        "DROP DATABASE DB1",  # ParserException: DuckDB has no DROP DATABASE
     ]
     ok, detail = True, ""
     for sql in script:
